@@ -59,6 +59,7 @@ struct Scenario {
   std::vector<ReqSpec> reqs;
   int preSyns = 2, gapSyns = 1, tailSyns = 3;
   int k = 2, c = 1, r = 0;     // deviation / chunk / late-request budgets for this scenario
+  int slices = 1;              // the exploration of this scenario is split into this many work units
   bool drainAtEnd = false;     // C04: force signal loss at the end
   bool faults = false;         // offer read/write error + device invalid alternatives
   bool arbContenders = true;   // offer contender alternatives at the arbitration slot
@@ -82,14 +83,14 @@ class Monitor {  // interface implemented by the property monitors
   virtual ~Monitor() {}
   virtual void onWrite(uint8_t v) {}               // symbol put on the bus by ebusd (plain write / SEND)
   virtual void onArbStart(uint8_t addr) {}         // enhanced: START(addr) (addr == SYN: cancel)
-  virtual void onDeliver(uint8_t v, int kind) {}   // symbol consumed by the device: 0 wire, 1 STARTED, 2 FAILED
+  virtual void onDeliver(uint8_t v, int kind, bool more) {}   // symbol consumed by the device: 0 wire, 1 STARTED, 2 FAILED; more = further bytes already buffered
   virtual void onTimeout(int ms) {}
   virtual void onIoError(bool write) {}
   virtual void onReopen() {}
   virtual void onReport(int dir, const Bytes& m, const Bytes& s) {}
-  virtual void onNotify(int req, int result, const Bytes& slave) {}
+  virtual void onNotify(int req, int result, const Bytes& slave, bool restart) {}
   virtual void onEnqueue(int req) {}
-  virtual void onQuiescent() {}                    // ebusd asks for input: everything consumed is processed
+  virtual void onQuiescent(bool buffered) {}       // ebusd asks for input: everything consumed is processed; buffered = more received bytes are waiting
   virtual void onEnd() {}
   virtual void fingerprint(std::string* o) const {}
 };
@@ -195,11 +196,11 @@ class World {
   // ---- events to monitors ----
   void evWrite(uint8_t v) { if (ended) return; if (logging) lg("W %02x", v); for (auto m : mons) m->onWrite(v); }
   void evArb(uint8_t a) { if (ended) return; if (logging) lg("ARBSTART %02x", a); for (auto m : mons) m->onArbStart(a); }
-  void evDeliver(uint8_t v, int k) { if (ended) return; if (logging) lg(k == 0 ? "R %02x" : k == 1 ? "R STARTED %02x" : "R FAILED %02x", v); for (auto m : mons) m->onDeliver(v, k); }
+  void evDeliver(uint8_t v, int k, bool more) { if (ended) return; if (logging) lg(k == 0 ? "R %02x%s" : k == 1 ? "R STARTED %02x%s" : "R FAILED %02x%s", v, more ? " (+)" : ""); for (auto m : mons) m->onDeliver(v, k, more); }
   void evTimeout(int ms) { if (ended) return; if (logging) lg("T %d", ms); for (auto m : mons) m->onTimeout(ms); }
   void evIoError(bool w) { if (ended) return; if (logging) lg(w ? "WRITE-ERROR" : "READ-ERROR"); for (auto m : mons) m->onIoError(w); }
   void evReport(int dir, const Bytes& m, const Bytes& s) { if (ended) return; if (logging) lg("REPORT dir=%d %s / %s", dir, ref::hex(m).c_str(), ref::hex(s).c_str()); for (auto mo : mons) mo->onReport(dir, m, s); }
-  void evNotify(int req, int result, const Bytes& s) { if (ended) return; if (logging) lg("NOTIFY req=%d result=%d slave=%s", req, result, ref::hex(s).c_str()); for (auto m : mons) m->onNotify(req, result, s); }
+  void evNotify(int req, int result, const Bytes& s, bool restart) { if (ended) return; if (logging) lg("NOTIFY req=%d result=%d slave=%s%s", req, result, ref::hex(s).c_str(), restart ? " restart" : ""); for (auto m : mons) m->onNotify(req, result, s, restart); }
   void evEnqueue(int r) { if (ended) return; if (logging) lg("ENQUEUE req=%d %s", r, ref::hex(sc.reqs[r].master).c_str()); for (auto m : mons) m->onEnqueue(r); }
   void lg(const char* fmt, ...) __attribute__((format(printf, 2, 3)));
 
